@@ -336,6 +336,9 @@ class CFG:
 
     def facts_on_all_paths(self, node: CNode, *, normal_only: bool = True) -> list[tuple[str, bool]]:
         """Atoms (as text) known true/false on every path to node (dominating branch facts)."""
+        cache = self.__dict__.setdefault("_facts_cache", {})
+        if (node, normal_only) in cache:
+            return list(cache[(node, normal_only)])
         out = []
         cands: set[tuple[str, bool]] = set()
         for n in self.live_nodes():
@@ -348,6 +351,7 @@ class CFG:
                 node, lambda a, t, text=text, truth=truth: unparse(a) == text and t == truth, normal_only=normal_only
             ):
                 out.append((text, truth))
+        cache[(node, normal_only)] = list(out)
         return out
 
     def exits(self, *, exceptional: bool = True) -> list[CNode]:
